@@ -79,4 +79,28 @@ CLAIMS = {
     note="Trusted: TLC, the server-side element splitter and byte comparison, atomicity of one Write call on net.Conn. Client over TCP only so far "
          "(WebSocket and component send paths are not yet driven). Log-file layout is not asserted.",
     technique=TECH),
+ "C03": dict(
+    text="Negotiation.tla is a stage machine of the client's negotiation (open, STARTTLS, TLS handshake, restart, SASL, restart, resume | bind, "
+         "legacy session, SM enable) with the server's reply at each stage as environment choice, and the Client/Session/Transport state that "
+         "persists across connections. TLC checks wire order, success-needs-every-step and the C04/C11/C14 invariants and emits every behaviour; "
+         "each is a script for the scripted TLS-capable server, run against a real Client; TLC folds the same Step operator over the logged replies "
+         "and compares requests, their order, outcome, established-event count; hangs (8 s) and panics (worker death) are observations. After the script "
+         "the server stays lenient so a client that wrongly carries on is seen succeeding. Includes 2-connection histories (a failed attempt must not poison the next).",
+    note="Trusted: TLC, the scripted server (element splitter, in-process CA with valid / wrong-host / untrusted / expired leaves), the harness's classification of client elements. Not asserted: error texts, IQ ids, the Permanent flag except where a property names it, whether STARTTLS is attempted in insecure mode, whether an optional legacy session is negotiated. WebSocket transport not yet driven. Exhaustive within the per-step alphabets in the evidence.", technique=TECH),
+ "C04": dict(
+    text="Same model; every client element carries an enc flag set by the server (read inside/outside TLS). TLC checks NoSecretInClear for all "
+         "Insecure x TLS-config x STARTTLS-offer x reply x certificate-class combinations and for 2-3 connections on one client object (the flags that "
+         "say 'secure' live in reused objects); on the real client every sensitive element (auth, resume, bind, session, enable, any stanza) read in "
+         "clear text, or over TLS with a certificate that does not validate for the domain, is a violation judged independently of the model.",
+    note="Trusted: TLC, the scripted server (element splitter, in-process CA with valid / wrong-host / untrusted / expired leaves), the harness's classification of client elements. Not asserted: error texts, IQ ids, the Permanent flag except where a property names it, whether STARTTLS is attempted in insecure mode, whether an optional legacy session is negotiated. WebSocket transport not yet driven. Exhaustive within the per-step alphabets in the evidence.", technique=TECH),
+ "C11": dict(
+    text="Same model with the carried stream-management state: all histories of 3 (thorough 4) connections on one client through both reconnect "
+         "entry points, every reply to <resume/>; TLC checks resume-only-with-id / resumed-means-no-bind; on the real client the <resume/> element's "
+         "previd and h, the absence of bind after <resumed/>, BindJid/SMState after each attempt and that a stale id is never presented again are compared with the reference.",
+    note="Trusted: TLC, the scripted server (element splitter, in-process CA with valid / wrong-host / untrusted / expired leaves), the harness's classification of client elements. Not asserted: error texts, IQ ids, the Permanent flag except where a property names it, whether STARTTLS is attempted in insecure mode, whether an optional legacy session is negotiated. WebSocket transport not yet driven. Exhaustive within the per-step alphabets in the evidence.", technique=TECH),
+ "C14": dict(
+    text="Same model's SASL step: ChosenMech over 11 server mechanism lists x both credential kinds x every reply to <auth/>, two connections with "
+         "independent lists; on the real client the mechanism attribute, the base64-decoded payload as a byte sequence (TLC compares it with "
+         "<<0>> o user o <<0>> o secret for users/secrets from byte classes), nothing-sent-and-permanent when no common mechanism, permanent on <failure/>.",
+    note="Trusted: TLC, the scripted server (element splitter, in-process CA with valid / wrong-host / untrusted / expired leaves), the harness's classification of client elements. Not asserted: error texts, IQ ids, the Permanent flag except where a property names it, whether STARTTLS is attempted in insecure mode, whether an optional legacy session is negotiated. WebSocket transport not yet driven. Exhaustive within the per-step alphabets in the evidence." + " base64 decoding and the reference bytes are computed by the Go standard library in the harness (DESIGN.md section 9).", technique=TECH),
 }
